@@ -155,7 +155,11 @@ func (p *Proc) Process(ctx context.Context, recs []opencdc.Record) []sdk.Process
 			var pieces sdk.MultiRecord
 			for k := 0; k < n; k++ {
 				pc := r.Clone()
-				pc.Metadata["verif.piece"] = strconv.Itoa(k) + "/" + strconv.Itoa(n)
+				label := strconv.Itoa(k) + "/" + strconv.Itoa(n)
+				if outer := r.Metadata["verif.piece"]; outer != "" {
+					label = outer + "." + label // a piece of a piece (a later processor splits again)
+				}
+				pc.Metadata["verif.piece"] = label
 				pieces = append(pieces, pc)
 			}
 			p.W.Log("proc", "split", idx, fmt.Sprintf("%s|n=%d", src, n))
